@@ -52,7 +52,7 @@ CLAIMS = {
          "is carried by the tie: implementation = that function on every history, in one process (channel L) and across two "
          "separately started processes (byte comparison), the same history twice in a row in one process, and the same histories in reverse order in a third process (what the process did before must not matter). Partial by nature.", "4 C19", L_NOTE,
          "Lean 4 model-as-function + two-process byte comparison"),
- "C20": ("C20_replay: for every source definition built from any valid history and every target strategy (four native, two generic) the "
+ "C20": ("C20_target_builds (build() succeeds on the replayed target, same variant count and sizes); C20_replay: for every source definition built from any valid history and every target strategy (four native, two generic) the "
          "conversion helper succeeds (no builder error, no indexing or strategy panic), creates exactly one target variant per source variant, "
          "returns the map k -> k, leaves the target buildable, and relates source and target data by one injective id map: target variant k is a "
          "permutation of the image of source variant k under that single map, and corresponding data have the same name, type, size, alignment "
